@@ -35,19 +35,22 @@ def main():
             if kind == 0:
                 k = dict(years=rnd.randint(-40, 40), months=rnd.randint(-30, 30), weeks=rnd.randint(-60, 60), days=rnd.randint(-800, 800))
                 exp = M.add(y, m, d, **k)
-                if not (1 <= exp[0] <= 9999):
-                    continue
+                mid = M.add(y, m, d, years=k["years"], months=k["months"])
+                if not (1 <= exp[0] <= 9999) or not (1 <= mid[0] <= 9999):
+                    continue   # assumption of every claim: all (intermediate) dates within years 1..9999
                 r = pd.add(**k)
                 got = (r.year, r.month, r.day)
                 what = ("add", k)
             elif kind == 1:
-                r = pd.start_of("week"); got = (r.year, r.month, r.day); exp = M.start_of_week(y, m, d); what = "start_of week"
+                exp = M.start_of_week(y, m, d); what = "start_of week"
                 if exp[0] < 1:
                     continue
+                r = pd.start_of("week"); got = (r.year, r.month, r.day)
             elif kind == 2:
-                r = pd.end_of("week"); got = (r.year, r.month, r.day); exp = M.end_of_week(y, m, d); what = "end_of week"
+                exp = M.end_of_week(y, m, d); what = "end_of week"
                 if exp[0] > 9999:
                     continue
+                r = pd.end_of("week"); got = (r.year, r.month, r.day)
             elif kind == 3:
                 r = pd.end_of("month"); got = (r.year, r.month, r.day); exp = M.end_of_month(y, m, d); what = "end_of month"
             elif kind == 4:
